@@ -27,7 +27,7 @@ RULE = (
     "on 3-4-5 directions, mindist in {0, 1e-3..1e4}; (b) seeded random clouds at scales 1e-6..1e8 with coincident data/force points; "
     "(c) dyadic clouds shifted by dyadic offsets (bit-identical Jacobians required); (d) VectorSpline2D with Poisson in [-1,1] incl. "
     "+-1 and mindist in {0, 1e-3..1e4}; (e) Trend degrees 0..6; (f) CheckerBoard with default and explicit wavelengths; (g) Linear / "
-    "Cubic with both rescale settings on isotropic and strongly anisotropic clouds; (h) fitted Spline / VectorSpline2D / Trend / Chain / "
+    "Cubic with both rescale settings on isotropic and strongly anisotropic clouds; (h) integer-typed (int32 / int64) query and force coordinates, including values whose squares / powers overflow the integer dtype; (i) fitted Spline / VectorSpline2D / Trend / Chain / "
     "Vector / SplineCV through predict, grid, scatter and profile. Parameters are set by hand (unit vectors, random vectors) on unfitted "
     "estimators as well as estimated by fit; queries are 0-d, 1-D, 2-D and 3-D. A monitored evaluation is non-trivial when its kernel "
     "arguments contain a coincident pair or at least one distance in each of (0,1), [1,e) and >= e (spline family), degree >= 2 (Trend), "
@@ -47,11 +47,17 @@ FLOORS = {  # ~40 % of what the unchanged tree produces (quick seed 0: 1959/4732
     "quick": {"eval:spline_jacobian": 780, "eval:spline_predict": 1900, "eval:vector_jacobian": 560, "eval:vector_predict": 1800,
               "eval:trend_jacobian": 440, "eval:trend_predict": 1550, "eval:checkerboard_predict": 870, "eval:scipy_predict": 600,
               "eval:translation_invariance": 190, "eval:reference_vs_mpmath": 100, "distinct_nontrivial": 5900,
-              "dist:(0,1)": 380000, "dist:[1,e)": 79000, "dist:>=e": 840000, "dist:coincident": 15000},
+              "dist:(0,1)": 380000, "dist:[1,e)": 79000, "dist:>=e": 840000, "dist:coincident": 15000, "integer_coordinates:spline_predict:int32": 80, "integer_coordinates:spline_predict:int64": 80,
+              "integer_coordinates:vector_predict:int32": 80, "integer_coordinates:vector_predict:int64": 80, "integer_coordinates:trend_predict:int32": 125,
+              "integer_coordinates:trend_predict:int64": 125, "integer_coordinates:spline_jacobian:int32": 40, "integer_coordinates:vector_jacobian:int64": 40,
+              "integer_coordinates:trend_jacobian:int32": 40, "integer:squares_overflow_the_dtype": 40, "integer:powers_overflow_the_dtype": 25},
     "thorough": {"eval:spline_jacobian": 15500, "eval:spline_predict": 38000, "eval:vector_jacobian": 11400, "eval:vector_predict": 36500,
                  "eval:trend_jacobian": 8600, "eval:trend_predict": 31000, "eval:checkerboard_predict": 17600, "eval:scipy_predict": 12300,
                  "eval:translation_invariance": 3800, "eval:reference_vs_mpmath": 380, "distinct_nontrivial": 119000,
-                 "dist:(0,1)": 8000000, "dist:[1,e)": 1550000, "dist:>=e": 16000000, "dist:coincident": 300000},
+                 "dist:(0,1)": 8000000, "dist:[1,e)": 1550000, "dist:>=e": 16000000, "dist:coincident": 300000, "integer_coordinates:spline_predict:int32": 1600, "integer_coordinates:spline_predict:int64": 1600,
+                 "integer_coordinates:vector_predict:int32": 1600, "integer_coordinates:vector_predict:int64": 1600, "integer_coordinates:trend_predict:int32": 2500,
+                 "integer_coordinates:trend_predict:int64": 2500, "integer_coordinates:spline_jacobian:int32": 800, "integer_coordinates:vector_jacobian:int64": 800,
+                 "integer_coordinates:trend_jacobian:int32": 800, "integer:squares_overflow_the_dtype": 800, "integer:powers_overflow_the_dtype": 500},
 }
 JOBS = {"quick": 1, "thorough": 16}
 CASE_TIMEOUT_S = 180
@@ -60,8 +66,8 @@ MPMATH_BUDGET = {"quick": 260, "thorough": 60}  # per process (thorough runs 16 
 
 def plan(tier):
     if tier == "quick":
-        return collections.OrderedDict(ladder=360, pairs=480, translation=240, vector=420, trend=480, checker=420, scipy=420, fitted=300)
-    return collections.OrderedDict(ladder=7200, pairs=9600, translation=4800, vector=8400, trend=9600, checker=8400, scipy=8400, fitted=6000)
+        return collections.OrderedDict(ladder=360, pairs=480, translation=240, vector=420, trend=480, checker=420, scipy=420, fitted=300, integer=210)
+    return collections.OrderedDict(ladder=7200, pairs=9600, translation=4800, vector=8400, trend=9600, checker=8400, scipy=8400, fitted=6000, integer=4200)
 
 
 # ----------------------------------------------------------------------
@@ -77,6 +83,13 @@ def _pair(coordinates):
     if east.shape != north.shape:
         return None
     return east.astype("float64").ravel(), north.astype("float64").ravel()
+
+
+def _count_integer(run, monitor, coordinates):
+    """Class counter: the monitored call received integer-typed coordinates (the formula must hold for the same values)."""
+    dt = np.asarray(coordinates[0]).dtype
+    if dt.kind in "iu":
+        run.count("integer_coordinates:%s:%s" % (monitor, dt.name))
 
 
 def _distance_classes(run, r, delta_zero, prefix="dist"):
@@ -173,6 +186,7 @@ def install(tap, run):
         mindist = float(self.mindist)
         jac = np.asarray(ev.result)
         run.evaluated("spline_jacobian")
+        _count_integer(run, "spline_jacobian", a["coordinates"])
         witness = {"east": east, "north": north, "force_east": fe, "force_north": fn, "mindist": mindist}
         if jac.shape != (east.size, fe.size):
             run.violation("spline_jacobian", "Jacobian shape %s is not (n_data, n_forces) = %s" % (jac.shape, (east.size, fe.size)), witness, key="spline-jac-shape")
@@ -225,6 +239,7 @@ def install(tap, run):
         mindist = float(self.mindist)
         res = np.asarray(ev.result)
         run.evaluated("spline_predict")
+        _count_integer(run, "spline_predict", ev.args["coordinates"])
         witness = {"east": east, "north": north, "force_east": fe, "force_north": fn, "forces": forces, "mindist": mindist,
                    "query_shape": list(np.shape(ev.args["coordinates"][0])), "result": res}
         if res.size != east.size:
@@ -268,6 +283,7 @@ def install(tap, run):
         jac = np.asarray(ev.result)
         n, m = east.size, fe.size
         run.evaluated("vector_jacobian")
+        _count_integer(run, "vector_jacobian", a["coordinates"])
         witness = {"east": east, "north": north, "force_east": fe, "force_north": fn, "mindist": mindist, "poisson": poisson}
         if jac.shape != (2 * n, 2 * m):
             run.violation("vector_jacobian", "Jacobian shape %s is not (2 n_data, 2 n_forces) = %s" % (jac.shape, (2 * n, 2 * m)), witness, key="vector-jac-shape")
@@ -327,6 +343,7 @@ def install(tap, run):
         mindist, poisson = float(self.mindist), float(self.poisson)
         res = ev.result
         run.evaluated("vector_predict")
+        _count_integer(run, "vector_predict", ev.args["coordinates"])
         witness = {"east": east, "north": north, "force_east": fe, "force_north": fn, "forces": forces, "mindist": mindist, "poisson": poisson,
                    "query_shape": list(np.shape(ev.args["coordinates"][0]))}
         if not isinstance(res, tuple) or len(res) != 2 or any(np.asarray(c).size != east.size for c in res):
@@ -386,6 +403,7 @@ def install(tap, run):
         degree = int(self.degree)
         jac = np.asarray(ev.result)
         run.evaluated("trend_jacobian")
+        _count_integer(run, "trend_jacobian", a["coordinates"])
         nterms = (degree + 1) * (degree + 2) // 2
         witness = {"east": east, "north": north, "degree": degree}
         if jac.shape != (east.size, nterms):
@@ -421,6 +439,7 @@ def install(tap, run):
         nterms = (degree + 1) * (degree + 2) // 2
         res = np.asarray(ev.result)
         run.evaluated("trend_predict")
+        _count_integer(run, "trend_predict", ev.args["coordinates"])
         witness = {"east": east, "north": north, "degree": degree, "coef": coef, "query_shape": list(np.shape(ev.args["coordinates"][0])), "result": res}
         if coef.size != nterms:
             run.violation("trend_predict", "degree %d has %d coefficients, (N+1)(N+2)/2 = %d" % (degree, coef.size, nterms), witness, key="trend-ncoef")
@@ -936,7 +955,59 @@ def _stream_fitted(run, rng, verde, index):
                           "compared": "jacobian inside fit and every predict (direct, grid, scatter, profile, chain / vector steps) with the estimated parameters"})
 
 
-_STREAMS = {"ladder": _stream_ladder, "pairs": _stream_pairs, "translation": _stream_translation, "vector": _stream_vector,
+def _stream_integer(run, rng, verde, index):
+    """The same formulas for integer-typed coordinates: values whose squares / powers overflow int32 or int64 included."""
+    dt = ("int32", "int64")[index % 2]
+    cls = index % 3  # 0: small, 1: overflows int32 arithmetic, 2: overflows int64 arithmetic (int64 dtype only)
+    if cls == 2 and dt == "int32":
+        cls = 1
+    m, q = int(rng.integers(1, 12)), int(rng.integers(4, 25))
+    q -= q % 2
+    # spline family: squared coordinate differences
+    radius = (200, 60000, 4_000_000_000)[cls]
+    if dt == "int32":
+        radius = min(radius, 2 ** 30)
+    fe, fn = rng.integers(-radius, radius + 1, m).astype(dt), rng.integers(-radius, radius + 1, m).astype(dt)
+    qe, qn = rng.integers(-radius, radius + 1, q).astype(dt), rng.integers(-radius, radius + 1, q).astype(dt)
+    qe[0], qn[0] = fe[0], fn[0]  # a coincident pair
+    forces = rng.normal(size=m) * 10 ** rng.uniform(-3, 3)
+    mindist = float(rng.choice([0.0, 0.0, 1.0, 1e3]))
+    force_as = (fe, fn) if index % 4 < 2 else (fe.astype("float64"), fn.astype("float64"))
+    est = _hand_spline(verde, mindist, force_as[0], force_as[1], forces)
+    est.predict((qe, qn))
+    est.predict((qe.reshape(2, -1), qn.reshape(2, -1)))
+    est.jacobian((qe, qn), force_as)
+    vec = verde.VectorSpline2D(poisson=float(rng.choice([-1.0, 0.0, 0.5, 1.0])), mindist=float(rng.choice([1.0, 10.0, 1e4])), force_coords=force_as)
+    vec.force_ = rng.normal(size=2 * m) * 10 ** rng.uniform(-3, 3)
+    vec.predict((qe, qn))
+    vec.predict((qe.reshape(2, -1), qn.reshape(2, -1)))
+    vec.jacobian((qe, qn), force_as)
+    # trend: monomials easting^i northing^j
+    degree = index % 7
+    tradius = (30, 3000, 3_000_000)[cls]
+    te, tn = rng.integers(-tradius, tradius + 1, q).astype(dt), rng.integers(-tradius, tradius + 1, q).astype(dt)
+    te[0], tn[0] = tradius, -tradius
+    trend = verde.Trend(degree)
+    nterms = (degree + 1) * (degree + 2) // 2
+    trend.coef_ = rng.normal(size=nterms) * 10 ** rng.uniform(-3, 3, nterms)
+    trend.predict((te, tn))
+    trend.predict((te.reshape(2, -1), tn.reshape(2, -1)))
+    unit = np.zeros(nterms)
+    unit[-1] = 1.0
+    trend.coef_ = unit
+    trend.predict((te, tn))
+    trend.jacobian((te, tn))
+    limit = float(np.iinfo(dt).max)
+    run.count("integer:%s:%s" % (dt, ("small", "beyond_int32_arithmetic", "beyond_int64_arithmetic")[cls]))
+    if 2.0 * float(radius) ** 2 > limit:
+        run.count("integer:squares_overflow_the_dtype")
+    if float(tradius) ** degree > limit:
+        run.count("integer:powers_overflow_the_dtype")
+    run.sample("integer", {"dtype": dt, "radius": radius, "trend_radius": tradius, "degree": degree, "query_east": qe, "query_north": qn,
+                           "compared": "predict / jacobian on integer-typed coordinates against the float64 reference of the same values"})
+
+
+_STREAMS = {"integer": _stream_integer, "ladder": _stream_ladder, "pairs": _stream_pairs, "translation": _stream_translation, "vector": _stream_vector,
             "trend": _stream_trend, "checker": _stream_checker, "scipy": _stream_scipy, "fitted": _stream_fitted}
 
 
